@@ -21,8 +21,6 @@ use crate::{
 #[allow(unused_imports)] // Import is indeed used.
 use num_traits::Float;
 
-use super::rem_euclid_f64;
-
 impl Epoch {
     /// Returns the minimum of the two epochs.
     ///
@@ -249,13 +247,12 @@ impl Epoch {
     /// You _probably_ do not want to use this. You probably either want `weekday()` or `weekday_utc()`.
     /// Several time scales do _not_ have a reference day that's on a Monday, e.g. BDT.
     pub fn weekday_in_time_scale(&self, time_scale: TimeScale) -> Weekday {
-        (rem_euclid_f64(
-            self.to_duration_in_time_scale(time_scale)
-                .to_unit(Unit::Day),
-            Weekday::DAYS_PER_WEEK,
-        )
-        .floor() as u8)
-            .into()
+        // Whole days since the reference epoch (floored, also before the reference), modulo the week.
+        let days = self
+            .to_duration_in_time_scale(time_scale)
+            .total_nanoseconds()
+            .div_euclid(i128::from(NANOSECONDS_PER_DAY));
+        (days.rem_euclid(Weekday::DAYS_PER_WEEK_I128) as u8).into()
     }
 
     #[must_use]
